@@ -278,7 +278,7 @@ void run_group(int n, const std::function<void(int)> &body, int kind) {
 }
 
 ExploreStats explore(const std::function<uint64_t()> &body, int bound, long long max_exec,
-                     const std::function<void(const std::vector<int>&, uint64_t)> &on_exec)
+                     const std::function<void(const std::vector<int>&, uint64_t)> &on_exec, bool delay_bounded)
 {
     ExploreStats st;
     struct Item { std::vector<int> prefix; };
@@ -300,7 +300,7 @@ ExploreStats explore(const std::function<uint64_t()> &body, int bound, long long
         if (on_exec) on_exec(choices, obs);
         int cost = 0;
         for (size_t i = 0; i < it.prefix.size() && i < P.size(); ++i)
-            if (P[i].chosen != 0 && (!P[i].sched || P[i].cur_enabled)) cost++;
+            if (P[i].chosen != 0 && (delay_bounded || !P[i].sched || P[i].cur_enabled)) cost++;
         for (size_t i = it.prefix.size(); i < P.size(); ++i) {
             const ChoicePoint &p = P[i];
             if (p.state) {
@@ -310,7 +310,7 @@ ExploreStats explore(const std::function<uint64_t()> &body, int bound, long long
             }
             st.states++;
             for (int alt = p.n - 1; alt >= 1; --alt) {
-                int ac = cost + ((p.sched && !p.cur_enabled) ? 0 : 1);
+                int ac = cost + ((p.sched && !p.cur_enabled && !delay_bounded) ? 0 : 1);
                 if (bound >= 0 && ac > bound) { st.bound_skipped++; continue; }
                 Item nx; nx.prefix.assign(choices.begin(), choices.begin() + i); nx.prefix.push_back(alt);
                 stack.push_back(std::move(nx));
